@@ -37,35 +37,7 @@ def r_C11b(root):
 def r_C11de(root):
     out = []; inst = 0
     t = load(root, R)
-    # ---- C11.d
-    lk = find(t, "RRELNavigation.apply.lookup"); fi = sem.info(lk)
-    rets = [n for n in own_nodes(lk) if isinstance(n, ast.Return) and isinstance(n.value, ast.Tuple) and len(n.value.elts) == 3]
-    if len(rets) < 5: raise AnalysisError("RRELNavigation.lookup: expected at least 5 result tuples, found %d" % len(rets))
-    for r in rets:
-        o, ll, mp = r.value.elts
-        uo, ul, um = [ast.unparse(x).replace(" ", "") for x in (o, ll, mp)]
-        inst += 1; okr = True
-        selected = isinstance(o, ast.Subscript) and isinstance(o.value, ast.Name)           # an element picked out of a filtered list
-        if selected:
-            lst = o.value.id
-            n = fi.node_of(r); defs_ = fi.rd.defs_of(n, lst)
-            by = set()
-            for d in defs_:
-                a = fi.cfg.nodes[d].ast
-                src = ast.unparse(a)
-                if "lookup_list[0]" in src: by.add("name-part")
-                if "fixed_name" in src: by.add("fixed")
-            if um != "matched_path+[%s]" % uo:
-                okr = False; out.append(Finding("C11", "C11.d", R, "RRELNavigation.apply.lookup", " ".join(ast.unparse(r).split()), "an object selected by name is returned without being appended to the matched path: the proxy path (+p) and _tx_path miss this step", witness="+p:packages.'Main'~classes.attrs  — the fixed-name step is absent from the reference proxy path"))
-            if by == {"name-part"} and ul != "lookup_list[1:]":
-                okr = False; out.append(Finding("C11", "C11.d", R, "RRELNavigation.apply.lookup", " ".join(ast.unparse(r).split()), "the object was selected by the next name part but the name part is not consumed"))
-            if by == {"fixed"} and ul != "lookup_list":
-                okr = False; out.append(Finding("C11", "C11.d", R, "RRELNavigation.apply.lookup", " ".join(ast.unparse(r).split()), "the object was selected by the fixed name but a name part of the reference is consumed"))
-            if not by: raise AnalysisError("RRELNavigation.lookup: cannot tell how %s was selected" % lst)
-        else:
-            if ul != "lookup_list" or um != "matched_path":
-                okr = False; out.append(Finding("C11", "C11.d", R, "RRELNavigation.apply.lookup", " ".join(ast.unparse(r).split()), "a result that selects no object by name changes the remaining names or the matched path"))
-        ob("C11", "C11.d", R, "RRELNavigation.apply.lookup", " ".join(ast.unparse(r).split())[:100], okr)
+    # C11.d (result tuples of RRELNavigation.apply.lookup) is decided by evaluation: C11.h (sa/rules/c11e.py)
     # ---- C11.e  decided by evaluating RRELDots.apply (sa/pyeval.py) for num = 1..4 dots on objects with 0..3 ancestors
     from sa import pyeval
     da = find_i(root, R, "RRELDots.apply"); inst += 1
